@@ -182,6 +182,10 @@ func IDPMetadata(trust, sso, slo string) *saml.EntityDescriptor {
 	switch trust {
 	case "meta2":
 		kds = []saml.KeyDescriptor{keyDesc("signing", samlgen.Key("idp2").CertB64), keyDesc("encryption", samlgen.Key("idpenc").CertB64), keyDesc("signing", samlgen.Key("idp1").CertB64)}
+	case "metaenconly": // no signing key published at all: nothing is trusted
+		kds = []saml.KeyDescriptor{keyDesc("encryption", samlgen.Key("idpenc").CertB64)}
+	case "metaemptysign": // an empty signing descriptor next to an encryption one: nothing is trusted
+		kds = []saml.KeyDescriptor{keyDesc("signing", ""), keyDesc("encryption", samlgen.Key("idpenc").CertB64)}
 	case "metanouse":
 		kds = []saml.KeyDescriptor{keyDesc("", samlgen.Key("idp1").CertB64), keyDesc("encryption", samlgen.Key("idpenc").CertB64)}
 	default:
